@@ -2874,10 +2874,12 @@ class Entity(MutableMapping[str, str]):
 
         If the entity doesn't start with a name, it will use the parameter.
         """
+        # The lookup is keyed by the casefolded name, with None for unnamed entities.
+        by_target = self.map.by_target
         orig_name = self['targetname']
         if orig_name:
             # If this name is already unique, preserve it.
-            if self.map.by_target[orig_name] == {self}:
+            if by_target.get(orig_name.casefold()) == {self}:
                 return self
 
             self['targetname'] = ''  # Remove ourselves from the .by_target[] set.
@@ -2886,12 +2888,12 @@ class Entity(MutableMapping[str, str]):
 
         base_name = orig_name.rstrip('0123456789')
 
-        if self.map.by_target[base_name]:
+        if by_target.get(base_name.casefold()):
             # Check every index in order.
             i = 1
             while True:
                 name = base_name + str(i)
-                if not self.map.by_target[name]:
+                if not by_target.get(name.casefold()):
                     self['targetname'] = name
                     break
                 i += 1
